@@ -24,6 +24,15 @@ PENDING = {}
 LEVEL_TEXT = 'Seeded search over schedules, configurations, fault sequences and operation histories with reference models as oracles; a clean batch is evidence, not proof.'
 
 CHECKS = {
+    'C01': dict(engine='simmpi+simalloc+history', design='5/C01',
+                technique='deterministic simulation: every clustering entry point run serially and on N simulated MPI ranks under a seeded scheduler; k-medoids accept/reject histories driven from the tape through the warm-start/proposals interface; float64 reference model checked after every sweep',
+                note='Trusted base: simmpi, the float64 metric/consistency model, NumPy. Bounds: <= 48 frames, <= 8 clusters, <= 5 sweeps, dims 1-4, 1..6 ranks. Ties may be broken either way.'),
+    'C02': dict(engine='simmpi+simalloc', design='5/C02',
+                technique='deterministic simulation: k-centers run serially and on N simulated MPI ranks under a seeded scheduler with poisoned receive buffers; independent greedy farthest-point replay as oracle, prefix runs and shortcut on/off as differential clauses, exhaustive optimum on tiny instances',
+                note='Trusted base: simmpi, the greedy replay model, NumPy. Bit-for-bit clauses only on model-classified tie-free scenarios; stopping decisions within 1e-6 of the cutoff accepted either way. Non-termination is reported as no_progress via a 25 s CPU-time budget per run.'),
+    'C09': dict(engine='simmpi+simalloc+history', design='5/C09',
+                technique='deterministic simulation: tape-driven k-medoids proposal histories (serial and N simulated MPI ranks with seeded allreduce association order), reproducibility under perturbed global RNG, interleaved calls and heap poison',
+                note='Trusted base: simmpi, cost model, NumPy. Cost comparisons allow 4n ulp. Bounds: <= 48 frames, <= 6 sweeps, 1..6 ranks.'),
     'C14': dict(engine='simmpi+simalloc', design='5/C14, 4.1',
                 technique='deterministic simulation: N simulated MPI ranks (baton-passing threads behind a fake mpi4py) under a seeded scheduler with eager roots, reduction reassociation and poisoned receive buffers; refinement against the serial run and serial definitions',
                 note='Trusted base: simmpi collective semantics (taken from mpi4py docs, no real MPI available), the float64 reference models, NumPy. Explores world sizes 1..8 (12 thorough), <= 24 trajectories, <= 60 frames.'),
